@@ -12,7 +12,7 @@ import glob, json, os, subprocess, sys
 
 ROOT = os.path.dirname(os.path.dirname(os.path.abspath(__file__)))
 wave, scratch = int(sys.argv[1]), sys.argv[2]
-ordinal = {2: "SECOND", 3: "THIRD", 4: "FOURTH", 5: "FIFTH", 6: "SIXTH", 7: "SEVENTH", 8: "EIGHTH", 9: "NINTH"}.get(wave, str(wave) + "th")
+ordinal = {2: "SECOND", 3: "THIRD", 4: "FOURTH", 5: "FIFTH", 6: "SIXTH", 7: "SEVENTH", 8: "EIGHTH", 9: "NINTH", 10: "TENTH"}.get(wave, str(wave) + "th")
 
 used = {}
 for mp in sorted(glob.glob(os.path.join(ROOT, "seeded", "*", "meta.json"))):
@@ -37,6 +37,9 @@ FLAVOURS_BY_WAVE = {
  9: """- A: A PARTICULAR ORDER OF AT LEAST FOUR CALLS of at least three different kinds (for example a bulk insertion, then a lookup, then a removal at a particular place, then an enumeration): every shorter sequence, and the same calls in another order, behave correctly. Say in notes.md why each of the calls is needed.
 - B: CONFIGURATION TIMES STATE: the defect needs a particular configuration chosen at construction (a B-tree order, a ring capacity, a comparator with a particular property such as many equal keys or a reversed order, an element type of a particular size or kind, initial values passed to the constructor versus added later) combined with a particular state reached later; with the usual configuration, or in other states, everything is right.
 - C: your most devious idea for this property - something you believe even a careful reviewer and extensive automated randomized testing would probably still miss, while a user could realistically hit it within seconds of running time (not after billions of operations). The earlier rounds already covered: comparators with large or extreme results, NaN and -0.0, named and zero-size and pointer and very wide element types, key types with String or UnmarshalText methods, integer types at the ends of their ranges, sizes in the tens of thousands, lifetime counters in the thousands, hash collisions, package-level caches and pools, build constraints, position hints that survive a mutation, containers reset and re-used, containers produced by other operations, damage left by failing calls, arguments that repeat members or hand the container's own Values() back, two objects sharing a cursor or storage, the library's own TimeComparator. Find something none of these would reach.""",
+ 10: """- A: TWO DIFFERENT KINDS USED TOGETHER: the defect shows only when containers of two different kinds (or a container and plain Go values derived from it) are used together the way real programs do - one container's Values() or Keys() fed into another's Add/Put/Push, a container loaded from the JSON another kind wrote, containers held as elements or values of other containers, the result of an enumerable function or of set algebra handed to a different kind. Each kind driven on its own by its own tests is perfect.
+- B: AN UNDO THAT IS ALMOST COMPLETE: an operation that discovers part-way that it must not or cannot finish (a duplicate, an index out of range, a document that fails to decode, a full ring, a key that is already there, an argument list that is partly present) and has to leave things as they were - and restores everything but one detail, which only a later, different operation reveals.
+- C: your most devious idea for this property - something you believe even a careful reviewer and extensive automated randomized testing would probably still miss, while a user could realistically hit it within seconds of running time. The earlier rounds already covered: comparators with large or extreme results, NaN and -0.0, named and zero-size and pointer and very wide element types, key types with String or UnmarshalText methods, integer types at the ends of their ranges, sizes in the tens of thousands, lifetime counters in the thousands, extreme constructor arguments, values passed to constructors, hash collisions, package-level caches and pools, build constraints, goroutines started by the library, position hints and memos that survive a mutation or a load, containers reset and re-used, containers produced by other operations, damage left by failing calls, arguments that repeat members or hand the container's own Values() back, two objects sharing a cursor or storage, closures sharing a code pointer, the library's own TimeComparator. Find something none of these would reach.""",
 }
 FLAVOURS = FLAVOURS_BY_WAVE.get(wave, FLAVOURS_BY_WAVE[6])
 
